@@ -44,7 +44,8 @@ def configs(tier):
         n1 = len(_d1(space)[1])
         for j in range(n1):
             cfgs.append({'kind': 'expr', 'space': space, 'j': j})
-            cfgs.append({'kind': 'expr2', 'space': space, 'j': j, 'deep': thorough})
+            if thorough or space != 'ud3':
+                cfgs.append({'kind': 'expr2', 'space': space, 'j': j, 'deep': thorough})
     for j in range(len(_BLOCKS)):
         for space in ('rn2', 'ud2'):
             cfgs.append({'kind': 'block', 'space': space, 'j': j})
